@@ -168,8 +168,12 @@ Given(p) == p # NoPath
 (***************************************************************************)
 (* Actions                                                                 *)
 (***************************************************************************)
+\* new() refuses a configuration it does not know (some of it only while the descriptors are being
+\* created): the object stays without an image and can be given another one
+LegalCfg(cfg) == /\ cfg.level \in 1..4 /\ cfg.joliet \in 0..3 /\ cfg.rr \in {"", "1.09", "1.10", "1.12"}
 NewF(st, cfg, mode) ==
     IF st.phase # "uninit" THEN Refuse("bad_state")
+    ELSE IF ~LegalCfg(cfg) THEN Refuse("bad_cfg")
     ELSE Ok([Uninit EXCEPT !.phase = "live", !.cfg = cfg, !.mode = mode])
 
 CloseF(st) ==
